@@ -90,19 +90,20 @@ theorem server_recovers_first_frames (lsId : Nat) (p : ConnParams) (plan : Plan)
     (hok : FirstOK lsId p plan) (hseg : segs.flatten = firstBytes lsId p plan) :
     ∃ r : Received, serverRecv segs = .ok r ∧ r.err = none ∧
       r.hs = ⟨planProto plan, p.host, p.port, planNext plan⟩ ∧
-      (match plan with
-       | .direct _ => ∃ name, loginName p = some name ∧ r.frames = [(lsId, encString name)] ∧
-          r.decoded lsId = [.loginStart name]
-       | .query _ => r.frames = [(0, [])] ∧ r.decoded lsId = [.request]) := by
+      (∀ v, plan = .direct v → ∃ name, loginName p = some name ∧
+        r.frames = [(lsId, encString name)] ∧ r.decoded lsId = [.loginStart name]) ∧
+      (∀ v, plan = .query v → r.frames = [(0, [])] ∧ r.decoded lsId = [.request]) := by
   rw [serverRecv_spec, hseg]
   cases plan with
   | direct v =>
     obtain ⟨h1, h2, h3, h4, name, hn, hs⟩ := firstOK_direct lsId p v hok
-    refine ⟨_, serverParse_direct lsId p v name h1 h2 h3 h4 hn hs, rfl, rfl, name, hn, rfl, ?_⟩
+    refine ⟨_, serverParse_direct lsId p v name h1 h2 h3 h4 hn hs, rfl, rfl,
+      fun _ _ => ⟨name, hn, rfl, ?_⟩, fun _ hv => by cases hv⟩
     simp only [Received.decoded, List.map_cons, List.map_nil, decode_loginStart lsId name hs]
   | query v =>
     obtain ⟨h1, h2, h3⟩ := firstOK_query lsId p v hok
-    refine ⟨_, serverParse_query lsId p v h1 h2 h3, rfl, rfl, rfl, ?_⟩
+    refine ⟨_, serverParse_query lsId p v h1 h2 h3, rfl, rfl, (fun _ hv => by cases hv),
+      fun _ _ => ⟨rfl, ?_⟩⟩
     simp only [Received.decoded, List.map_cons, List.map_nil, decode_request]
 
 /-- (b) The encoding of one handshake record is unambiguous: two records within the guards whose
@@ -503,9 +504,12 @@ example : ∃ r, serverRecv [[0x19], [0x00, 0x85], [0x03, 0x12, 0x70, 0x6c, 0x61
       [0xdd, 0x02, 0x03], [], [0x01, 0x01, 0x75]] = .ok r ∧ r.err = none ∧
     r.hs = ⟨389, "play.é世.example", 25565, 2⟩ ∧
     ∃ name, loginName demoParamsU = some name ∧ r.frames = [(1, encString name)] ∧
-      r.decoded 1 = [.loginStart name] :=
-  server_recovers_first_frames 1 demoParamsU (.direct 389) _ (by decide +kernel)
-    (by decide +kernel)
+      r.decoded 1 = [.loginStart name] := by
+  obtain ⟨r, h1, h2, h3, h4, -⟩ := server_recovers_first_frames 1 demoParamsU (.direct 389)
+    [[0x19], [0x00, 0x85], [0x03, 0x12, 0x70, 0x6c, 0x61, 0x79, 0x2e, 0xc3],
+      [0xa9, 0xe4, 0xb8], [0x96, 0x2e, 0x65, 0x78, 0x61, 0x6d, 0x70, 0x6c, 0x65, 0x63],
+      [0xdd, 0x02, 0x03], [], [0x01, 0x01, 0x75]] (by decide +kernel) (by decide +kernel)
+  exact ⟨r, h1, h2, h3, h4 389 rfl⟩
 
 /-- The failure modes of `client_writes_first_bytes`: port 65536 — nothing is sent; no user name
 — the handshake is sent, the login start is not. -/
